@@ -66,14 +66,14 @@ type RuleSpec struct {
 }
 
 type projectJ struct {
-	Kind  string     `json:"kind"`
-	Name  string     `json:"name"`
-	Text  Txt        `json:"text"`
-	Types []TypeSpec `json:"types,omitempty"`
-	Rules []RuleSpec `json:"rules,omitempty"`
-	Torn  string     `json:"torn,omitempty"`
-	ShareWith int    `json:"share_with,omitempty"`
-	Opt   string     `json:"opt,omitempty"`
+	Kind      string     `json:"kind"`
+	Name      string     `json:"name"`
+	Text      Txt        `json:"text"`
+	Types     []TypeSpec `json:"types,omitempty"`
+	Rules     []RuleSpec `json:"rules,omitempty"`
+	Torn      string     `json:"torn,omitempty"`
+	ShareWith int        `json:"share_with,omitempty"`
+	Opt       string     `json:"opt,omitempty"`
 }
 
 func (p Project) MarshalJSON() ([]byte, error) {
@@ -92,7 +92,9 @@ type typeJ struct {
 	Text Txt    `json:"text"`
 }
 
-func (t TypeSpec) MarshalJSON() ([]byte, error) { return json.Marshal(typeJ{t.Name, t.Kind, Txt(t.Text)}) }
+func (t TypeSpec) MarshalJSON() ([]byte, error) {
+	return json.Marshal(typeJ{t.Name, t.Kind, Txt(t.Text)})
+}
 func (t *TypeSpec) UnmarshalJSON(b []byte) error {
 	var j typeJ
 	err := json.Unmarshal(b, &j)
@@ -143,14 +145,14 @@ type Op struct {
 // RunCfg is the swarm configuration of a run (explore-mode gates; a replay is
 // driven by the tape alone).
 type RunCfg struct {
-	Policy       int `json:"policy"`
-	SwitchPct    int `json:"switch_pct"`
-	PCTDepth     int `json:"pct_depth"`
-	PoolFreshPct int `json:"pool_fresh_pct"`
-	PoolAnyPct   int `json:"pool_any_pct"`
-	PoolDropPct  int `json:"pool_drop_pct"`
-	FPYieldPct   int `json:"fp_yield_pct"`
-	ClockVaryPct int `json:"clock_vary_pct,omitempty"`
+	Policy       int  `json:"policy"`
+	SwitchPct    int  `json:"switch_pct"`
+	PCTDepth     int  `json:"pct_depth"`
+	PoolFreshPct int  `json:"pool_fresh_pct"`
+	PoolAnyPct   int  `json:"pool_any_pct"`
+	PoolDropPct  int  `json:"pool_drop_pct"`
+	FPYieldPct   int  `json:"fp_yield_pct"`
+	ClockVaryPct int  `json:"clock_vary_pct,omitempty"`
 	CPUVary      bool `json:"cpu_vary,omitempty"`
 }
 
